@@ -325,11 +325,28 @@ impl embedded_hal_02::serial::Read<u8> for EhPlayer {
 // ops
 // ---------------------------------------------------------------------------------------------
 
+/// the same bytes behind an iterator with an inexact size hint (lower 0, upper > actual length)
+fn inexact(bs: &[u8]) -> impl Iterator<Item = u8> {
+    let mut opts: Vec<Option<u8>> = Vec::with_capacity(2 * bs.len() + 9);
+    for b in bs {
+        opts.push(None);
+        opts.push(Some(*b));
+    }
+    opts.extend(std::iter::repeat(None).take(9));
+    opts.into_iter().flatten()
+}
+
 fn enc_generic<B: Buffer>(p: &[u8]) -> String {
-    match encode::<B>(p) {
+    let show = |r: Result<B, OutOfMemory>| match r {
         Ok(b) => format!("ok:{}", hex(&b)),
         Err(OutOfMemory) => "oom".to_string(),
+    };
+    let a = show(encode::<B>(p));
+    let b = show(encode::<B>(inexact(p)));
+    if a != b {
+        return format!("MISMATCH slice=[{}] inexact-iterator=[{}]", a, b);
     }
+    a
 }
 
 fn do_enc(args: &[&str]) -> Option<String> {
@@ -491,16 +508,27 @@ fn do_decode(args: &[&str]) -> Option<String> {
     // `decode` accepts any IntoIterator<Item: Borrow<u8>>: exercise by-reference and by-value
     let a = decode(&s);
     let b = decode(s.iter().copied());
+    let c = decode(inexact(&s));
     let sa = join_sp(a.iter().map(show_item).collect());
     let sb_ = join_sp(b.iter().map(show_item).collect());
-    if sa != sb_ {
-        return Some(format!("MISMATCH byref=[{}] byval=[{}]", sa, sb_));
+    let sc = join_sp(c.iter().map(show_item).collect());
+    if sa != sb_ || sa != sc {
+        return Some(format!("MISMATCH byref=[{}] byval=[{}] inexact=[{}]", sa, sb_, sc));
     }
     Some(sa)
 }
 
 fn iter_generic<B: Buffer>(s: &[u8], extra: usize) -> String {
-    let mut it = decode_streaming::<B>(s);
+    let a = iter_generic_on::<B, _>(decode_streaming::<B>(s), s.len(), extra);
+    let b = iter_generic_on::<B, _>(decode_streaming::<B>(inexact(s)), s.len(), extra);
+    if a != b {
+        return format!("MISMATCH slice=[{}] inexact-iterator=[{}]", a, b);
+    }
+    a
+}
+
+fn iter_generic_on<B: Buffer, I: Iterator<Item = u8>>(mut it: sml_rs::transport::DecodeIterator<B, I>, slen: usize, extra: usize) -> String {
+    let s = vec![0u8; slen];
     let mut items = Vec::new();
     let mut n = 0;
     loop {
@@ -767,7 +795,14 @@ fn abuf_generic<const N: usize>(ops: &[&str]) -> String {
                     Some(v) => v,
                     None => return "bad-request".to_string(),
                 };
-                match catch_unwind(AssertUnwindSafe(|| bs.iter().copied().collect::<ArrayBuf<N>>())) {
+                let exact = catch_unwind(AssertUnwindSafe(|| bs.iter().copied().collect::<ArrayBuf<N>>()));
+                let loose = catch_unwind(AssertUnwindSafe(|| inexact(&bs).collect::<ArrayBuf<N>>()));
+                match (&exact, &loose) {
+                    (Ok(x), Ok(y)) if **x == **y => {}
+                    (Err(_), Err(_)) => {}
+                    _ => return format!("MISMATCH collect from an exact-size iterator and from a filtering iterator differ on {}", hex(&bs)),
+                }
+                match exact {
                     Ok(x) => {
                         a = x;
                         out.push(format!("ok|{}", vis(&a)));
